@@ -137,3 +137,8 @@ pub fn is_validation_panic(msg: &str) -> bool {
         || msg.contains("does not match destination slice length") // Butterfly1: copy_from_slice
         || msg.contains("copy_from_slice")
 }
+
+/// lengths every numeric search includes whatever its random structured sample contains: large Rader primes with a smooth
+/// p - 1 (7681, 12289, 40961), Bluestein primes (4099, 10007, 32771: inner length >= 65536), mixed-radix chains over a
+/// Bluestein / Rader base (8198, 15362), 3*2^k lengths (Radix4 over a 12/24 base), a product of two Bluestein primes
+pub const ANCHOR_LENS: [usize; 14] = [719, 1439, 1536, 3072, 4099, 6144, 7681, 8198, 10007, 12289, 15362, 32771, 40961, 59 * 83];
